@@ -186,7 +186,10 @@ func genC08(t *rapid.T) c08Case {
 		}
 	}
 	if rapid.IntRange(0, 2).Draw(t, "retag?") == 0 {
-		c.TagsAt = rapid.IntRange(1, len(c.Deliveries)).Draw(t, "tags_at")
+		// the receiver's tags are replaced in the middle of the case.  One tag is
+		// certain to change its value, and two planted queries filter on exactly
+		// that tag with an anchored literal of the old or the new value: one is
+		// first seen before the change, one after it.
 		c.Tags2 = map[string]string{}
 		for _, tn := range c08TagNames[:3] {
 			switch rapid.IntRange(0, 3).Draw(t, "retag-"+tn) {
@@ -199,6 +202,38 @@ func genC08(t *rapid.T) c08Case {
 				c.Tags2[tn] = rapid.SampledFrom(c08TagValues).Draw(t, "val2-"+tn)
 			}
 		}
+		ti := rapid.IntRange(0, 2).Draw(t, "retag-which")
+		tn := c08TagNames[ti]
+		oldv := c.Tags[tn] // missing = ""
+		vi := rapid.IntRange(0, len(c08TagValues)-1).Draw(t, "retag-new")
+		newv := c08TagValues[vi]
+		if newv == oldv {
+			newv = c08TagValues[(vi+1)%len(c08TagValues)]
+		}
+		if newv == "" && rapid.Bool().Draw(t, "retag-delete") {
+			delete(c.Tags2, tn)
+		} else {
+			c.Tags2[tn] = newv
+		}
+		planted := func(label string) int {
+			lit := oldv
+			if rapid.Bool().Draw(t, label+"-new") {
+				lit = newv
+			}
+			c.Queries = append(c.Queries, c08Query{
+				Via:     rapid.SampledFrom([]int{1, 1, 2, 0}).Draw(t, label+"-via"),
+				LTime:   rapid.IntRange(0, 40).Draw(t, label+"-lt"),
+				ID:      rapid.SampledFrom([]int{5, 6, 7}).Draw(t, label+"-id"),
+				Name:    rapid.IntRange(0, 1).Draw(t, label+"-name"),
+				Payload: "retag",
+				Ack:     rapid.Bool().Draw(t, label+"-ack"),
+				Filters: []c08Filter{{Kind: 1, Tag: ti, Expr: "^" + regexp.QuoteMeta(lit) + "$"}},
+			})
+			return len(c.Queries) - 1
+		}
+		ia, ib := planted("before"), planted("after")
+		c.Deliveries = append(append([]int{ia}, c.Deliveries...), ib)
+		c.TagsAt = rapid.IntRange(2, len(c.Deliveries)).Draw(t, "tags_at")
 	}
 	return c
 }
@@ -355,7 +390,7 @@ func bodyC08(c c08Case, x *vkit.Ctx) {
 	nontrivial := false
 	tags := c.Tags
 	for di, d := range c.Deliveries {
-		if c.TagsAt > 0 && di+1 == c.TagsAt && c.Tags2 != nil {
+		if c.TagsAt > 0 && di+1 == c.TagsAt { // a nil Tags2 is the empty tag set
 			t2 := map[string]string{}
 			for k, v := range c.Tags2 {
 				t2[k] = v
